@@ -25,7 +25,7 @@ Flags == [s256 : BOOLEAN, post : BOOLEAN, pkjwt : BOOLEAN, refresh : BOOLEAN, re
 AllOn  == [s256 |-> TRUE, post |-> TRUE, pkjwt |-> TRUE, refresh |-> TRUE, reqobj |-> TRUE]
 AllOff == [s256 |-> FALSE, post |-> FALSE, pkjwt |-> FALSE, refresh |-> FALSE, reqobj |-> FALSE]
 Near(f) == {f} \cup UNION {{[f EXCEPT ![k] = ~f[k]]} : k \in DOMAIN f}
-FlagSets == IF Tier = "quick" THEN Near(AllOn) \cup Near(AllOff) ELSE Flags
+FlagSets == Flags   \* all 32 option sets (the run takes seconds)
 Caps == [cc : BOOLEAN, te : BOOLEAN, dev : BOOLEAN]
 
 ConfigCases == {[kind |-> "config", flags |-> f, caps |-> c, issuer |-> i, endpoints |-> e, router |-> r] :
